@@ -89,8 +89,24 @@ func init() {
 			policy string // VERIF_MAPORDER value; "" = default; "PLAIN" = uninstrumented binary; "CLI" = real CLI
 		}
 		var jobs []jobT
-		for _, s := range c11Corpus(tier) {
-			for _, f := range flagSets {
+		corpus := c11Corpus(tier)
+		nWell := len(corpus)
+		// ill-formed grammars too: the exit status (and that nothing is written) must not depend on iteration order
+		for _, sd := range gram.Seeds()[:4] {
+			toks, _ := gram.Lexemes(sd.Text)
+			for i, m := range gram.Mutants(toks) {
+				if m.Kind == "rename" || m.Kind == "dup" || (m.Kind == "del" && i%5 == 0) || (m.Kind == "sub" && i%97 == 0 && tier == "thorough") {
+					corpus = append(corpus, gram.Seed{Name: "mutant-" + sd.Name + "/" + m.Desc, Text: gram.Canonical(m.Toks)})
+				}
+			}
+		}
+		r.Set("well_formed_grammars", nWell)
+		r.Set("mutant_grammars", len(corpus)-nWell)
+		for si, s := range corpus {
+			for fi, f := range flagSets {
+				if si >= nWell && fi > 0 {
+					continue
+				}
 				jobs = append(jobs, jobT{s, f, ""}, jobT{s, f, "PLAIN"}, jobT{s, f, "PLAIN"}, jobT{s, f, "CLI"})
 				for _, site := range mi.Sites {
 					for _, p := range policies {
@@ -204,7 +220,7 @@ func init() {
 		r.Set("sites_reached_with_2plus_keys", vis)
 		r.Set("max_distinct_outputs_per_grammar_and_flags", maxDistinct)
 		r.Set("grammar_flag_pairs", len(base))
-		r.Set("rule", "gocc rebuilt (overlay, /repo untouched) with every range-over-map routed through a shim that yields keys in a chosen order; per grammar x flag set: default (sorted) order, then every static range site x every non-default order policy {desc, rot1, swap01, midout} (deviation 1), every policy at all sites at once (thorough: pairs of sites), the uninstrumented in-process binary twice and the real CLI once; all .go bytes, exit status and the conflict count must equal the default run; distinct = (grammar, flags, policy) runs that agreed")
+		r.Set("rule", "corpus = seeds, S2/L6/ErrFam picks and single-edit mutants of seeds (ill-formed grammars: exit status must be stable too); gocc rebuilt (overlay, /repo untouched) with every range-over-map routed through a shim that yields keys in a chosen order; per grammar x flag set: default (sorted) order, then every static range site x every non-default order policy {desc, rot1, swap01, midout} (deviation 1), every policy at all sites at once (thorough: pairs of sites), the uninstrumented in-process binary twice and the real CLI once; all .go bytes, exit status and the conflict count must equal the default run; distinct = (grammar, flags, policy) runs that agreed")
 		r.Assumption("arbitrary key permutations over-approximate what the Go runtime can do; orders outside the policy menu are not explored; goroutines/clocks/random numbers are asserted absent syntactically")
 		return r.Finish(nil)
 	}
